@@ -683,3 +683,19 @@ def inexact(step, dtype_kind):
     if op == "coarsen":
         return step["fn"] == "sum"
     return False
+
+
+def discontinuous(step):
+    """Steps whose result can change when the input changes by a rounding error (used after inexact float steps)."""
+    op = step["op"]
+    if op in ("unique", "digitize", "searchsorted", "isin", "histogram", "argwhere", "flatnonzero", "maskdask", "bincount", "astype"):
+        return True
+    if op == "unary":
+        return step["fn"] in ("sign", "floor", "sqrt", "logical_not", "invert")
+    if op == "scalar":
+        return step["fn"] in ("lt", "eq", "ge", "floordiv", "mod")
+    if op == "binary":
+        return step["fn"] in ("lt", "ne", "logical_and", "where")
+    if op == "reduce":
+        return step["fn"] in ("argmax", "argmin", "any", "all", "count_nonzero")
+    return False
